@@ -81,10 +81,10 @@ impl MOp {
     }
 }
 
-fn reader_of(rows: &[Row]) -> impl arrow_array::RecordBatchReader + Send + 'static {
+fn reader_of(rows: &[Row]) -> Box<dyn arrow_array::RecordBatchReader + Send + 'static> {
     let b = rows_to_batch(rows, &BASE_COLS);
     let schema = b.schema();
-    arrow_array::RecordBatchIterator::new(vec![Ok(b)].into_iter(), schema)
+    Box::new(arrow_array::RecordBatchIterator::new(vec![Ok(b)].into_iter(), schema))
 }
 
 async fn exec(ds: &mut Dataset, actor: &Actor, op: &MOp) -> lance::Result<()> {
@@ -323,7 +323,10 @@ impl OpRec {
 }
 
 struct Checked {
+    /// (version at which the finding becomes visible, finding); only the earliest is reported,
+    /// later ones are usually consequences of the first
     findings: Vec<Finding>,
+    at: Vec<u64>,
     versions: u64,
     generations_checked: u64,
     transitions: BTreeMap<String, u64>,
@@ -332,7 +335,7 @@ struct Checked {
 
 /// The offline checker. `snaps[v]` for v in 1..=latest; `ops` = client-boundary history.
 fn check_history(snaps: &BTreeMap<u64, Snap>, ops: &[OpRec]) -> Checked {
-    let mut c = Checked { findings: vec![], versions: 0, generations_checked: 0, transitions: BTreeMap::new(), concurrent_pairs: 0 };
+    let mut c = Checked { findings: vec![], at: vec![], versions: 0, generations_checked: 0, transitions: BTreeMap::new(), concurrent_pairs: 0 };
     let mut max_ever: BTreeMap<String, u64> = BTreeMap::new();
     let mut gone: BTreeSet<(String, u64)> = BTreeSet::new();
     let mut prev: Snap = Snap::new();
@@ -348,6 +351,7 @@ fn check_history(snaps: &BTreeMap<u64, Snap>, ops: &[OpRec]) -> Checked {
         for ((r, g), list) in snap.iter() {
             c.generations_checked += 1;
             if list.len() > 1 {
+                c.at.push(*v);
                 c.findings.push(Finding {
                     signature: format!("generation-listed-twice:{}", by(*v)),
                     what: format!("v{v}: region {r} generation {g} appears {} times in the MemWAL index", list.len()),
@@ -359,14 +363,16 @@ fn check_history(snaps: &BTreeMap<u64, Snap>, ops: &[OpRec]) -> Checked {
             match prev.get(&key) {
                 None => {
                     if gone.contains(&key) {
+                        c.at.push(*v);
                         c.findings.push(Finding {
-                            signature: format!("trimmed-generation-reappears:{}", by(*v)),
+                            signature: "trimmed-generation-reappears".to_string(),
                             what: format!("v{v}: region {r} generation {g} was removed earlier and is back ({})", STATE_NAMES[cur.state as usize]),
                             detail: json!({"version": v, "region": r, "generation": g}),
                         });
                     } else {
                         let expect = max_ever.get(r).map(|m| m + 1).unwrap_or(0);
                         if *g != expect {
+                            c.at.push(*v);
                             c.findings.push(Finding {
                                 signature: format!("generation-not-consecutive:{}", by(*v)),
                                 what: format!("v{v}: region {r} gets generation {g}, expected {expect}"),
@@ -381,6 +387,7 @@ fn check_history(snaps: &BTreeMap<u64, Snap>, ops: &[OpRec]) -> Checked {
                         *c.transitions.entry(format!("{}->{}", STATE_NAMES[p.state as usize], STATE_NAMES[cur.state as usize])).or_insert(0) += 1;
                     }
                     if cur.state < p.state {
+                        c.at.push(*v);
                         c.findings.push(Finding {
                             signature: format!("state-moves-backwards:{}->{}:{}", STATE_NAMES[p.state as usize], STATE_NAMES[cur.state as usize], by(*v)),
                             what: format!("v{v}: region {r} generation {g} went from {} to {}", STATE_NAMES[p.state as usize], STATE_NAMES[cur.state as usize]),
@@ -392,6 +399,7 @@ fn check_history(snaps: &BTreeMap<u64, Snap>, ops: &[OpRec]) -> Checked {
             let m = max_ever.entry(r.clone()).or_insert(*g);
             *m = (*m).max(*g);
             if cur.state == 0 && latest.get(r.as_str()).copied() != Some(*g) {
+                c.at.push(*v);
                 c.findings.push(Finding {
                     signature: format!("older-generation-open:{}", by(*v)),
                     what: format!("v{v}: region {r} generation {g} is open but generation {} exists", latest[r.as_str()]),
@@ -404,6 +412,7 @@ fn check_history(snaps: &BTreeMap<u64, Snap>, ops: &[OpRec]) -> Checked {
                 let p = &p[p.len() - 1];
                 gone.insert(key.clone());
                 if p.state != 3 {
+                    c.at.push(*v);
                     c.findings.push(Finding {
                         signature: format!("unmerged-generation-removed:{}:{}", STATE_NAMES[p.state as usize], by(*v)),
                         what: format!("v{v}: region {} generation {} disappeared while {}", key.0, key.1, STATE_NAMES[p.state as usize]),
@@ -424,11 +433,6 @@ fn check_history(snaps: &BTreeMap<u64, Snap>, ops: &[OpRec]) -> Checked {
             let (x, y) = (a.get(k), b.get(k));
             if x != y {
                 gens.insert(k.clone());
-                let ox = x.map(|l| l[l.len() - 1].owner.clone());
-                let oy = y.map(|l| l[l.len() - 1].owner.clone());
-                if x.is_some() && y.is_some() && ox != oy {
-                    owners.insert(k.0.clone());
-                }
             }
         }
         let regions: BTreeSet<&String> = a.keys().chain(b.keys()).map(|k| &k.0).collect();
@@ -458,14 +462,27 @@ fn check_history(snaps: &BTreeMap<u64, Snap>, ops: &[OpRec]) -> Checked {
             kinds.sort();
             let both: Vec<_> = ga.intersection(&gb).cloned().collect();
             if !both.is_empty() {
+                let is_mi = |k: &str| k == "merge_insert_mark_merged";
+                let class = if kinds.contains(&"trim") {
+                    "trim-and-change-of-a-generation-it-removes".to_string()
+                } else if is_mi(kinds[0]) && is_mi(kinds[1]) {
+                    "two-merge_inserts-marked-the-same-generation-merged".to_string()
+                } else if is_mi(kinds[0]) || is_mi(kinds[1]) {
+                    "memwal-state-change-and-merge_insert-marking-it-merged".to_string()
+                } else {
+                    format!("{}+{}", kinds[0], kinds[1])
+                };
+                c.at.push(ca.max(cb));
                 c.findings.push(Finding {
-                    signature: format!("concurrent-txns-both-changed-same-generation:{}+{}", kinds[0], kinds[1]),
+                    signature: format!("concurrent-txns-both-changed-same-generation:{class}"),
                     what: format!("v{ca} ({}, read v{}) and v{cb} ({}, read v{}) were concurrent and both changed {:?}", a.op.kind(), a.read_version, b.op.kind(), b.read_version, both),
                     detail: json!({"a": a.describe(), "b": b.describe(), "generations": both}),
                 });
             }
+            // both_o: regions whose active owner (owner of the latest generation) both changed
             let both_o: Vec<_> = oa.intersection(&ob).cloned().collect();
             if !both_o.is_empty() {
+                c.at.push(ca.max(cb));
                 c.findings.push(Finding {
                     signature: format!("concurrent-txns-both-changed-ownership-of-region:{}+{}", kinds[0], kinds[1]),
                     what: format!("v{ca} ({}) and v{cb} ({}) were concurrent and both changed the ownership in region(s) {:?}", a.op.kind(), b.op.kind(), both_o),
@@ -781,7 +798,9 @@ async fn one_case(report: &Report, seed: u64, idx: u64, corrupt: Corrupt) -> Opt
             "finding": {"signature": f.signature, "what": f.what, "detail": f.detail},
         })
     };
-    for f in &c.findings {
+    report.count("findings_including_consequences", c.findings.len() as u64);
+    if let Some(first) = c.at.iter().enumerate().min_by_key(|(_, v)| **v).map(|(i, _)| i) {
+        let f = &c.findings[first];
         report.violation(&f.signature, &f.what, witness(f));
     }
     let committed = ops_txn.iter().filter(|o| o.result.is_ok()).count();
